@@ -165,6 +165,16 @@ FIXED = [
     ("file", "typedef a" + ".b" * 20000 + " T"),
     ("file", ""),
 ]
+# sign runs x boundary magnitudes, decimal and hex, in every position an integer constant can take: the sign handling and
+# the magnitude conversion are two places that have to agree at i64::MIN / 2^63 / 2^64
+for _signs in ("", "-", "--", "---", "----", "+", "-+", "+-"):
+    for _mag in ("9223372036854775807", "9223372036854775808", "9223372036854775809", "18446744073709551615", "18446744073709551616",
+                 "2147483647", "2147483648", "0x7fffffffffffffff", "0x8000000000000000", "0xffffffffffffffff", "0x10000000000000000", "0"):
+        FIXED.append(("file", "const i64 x = %s%s" % (_signs, _mag)))
+        FIXED.append(("int", "%s%s" % (_signs, _mag)))
+    for _tpl in ("const list<i64> x = [%s9223372036854775808, 1]", "enum E { A = %s9223372036854775808 }", "struct S { 1: i64 a = %s9223372036854775808 }",
+                 "const double x = 1.5e%s9223372036854775808", "const map<i64,i64> m = {%s9223372036854775808: %s0x8000000000000000}"):
+        FIXED.append(("file", _tpl.replace("%s", _signs)))
 
 
 def gen_cases(rng, tier):
